@@ -110,6 +110,12 @@ func init() {
 		if n == "" || strings.ContainsAny(n, "\n\r") || keywordSpelling(n) || seen[n] {
 			continue
 		}
+		// letters whose case folding is not plain lower-casing make distinct names collide in the
+		// compiler (EqualFold) but not in d2graph's lookups (ToLower): a naming defect of its own
+		// (see C06), kept out of the editing histories
+		if strings.ContainsAny(n, "ςſ\u212aıİǅǆǄ") {
+			continue
+		}
 		seen[n] = true
 		namePool = append(namePool, n)
 	}
@@ -303,7 +309,7 @@ type el struct {
 	arrows   string
 	foreign  bool // some reference to the element lies in another file (imported)
 	impValue bool // declared as `key: @file`
-	dotted   bool // mentioned in a dotted key outside connections (`a.b: ...`, `a.b.style.fill: ...`) or through `_`
+	dotted   bool // mentioned in a dotted key outside connections (`a.b: ...`, `a.b.style.fill: ...`), through `_`, or declared more than once
 	cells    map[string]string
 }
 
@@ -422,7 +428,13 @@ func stateOf(g *d2graph.Graph) *bstate {
 			x.depth++
 		}
 		attrCells(x.cells, "", &o.Attributes, false)
+		plainRefs := 0
 		for _, r := range o.References {
+			if r.MapKey != nil && len(r.MapKey.Edges) == 0 {
+				if plainRefs++; plainRefs > 1 {
+					x.dotted = true // declared more than once
+				}
+			}
 			if r.Key != nil && r.Key.Range.Path != "index.d2" {
 				x.foreign = true
 			}
@@ -644,6 +656,7 @@ type call struct {
 	tImpValue  bool // the target is declared as `key: @file`
 	dImpValue  bool // the destination container / a connection end is declared as `key: @file`
 	tDotted    bool // the target, something below or something above it is written with dotted keys (outside connections) or `_` references
+	foldNames  bool // the source uses letters whose case folding is not plain lower-casing (ς ſ K İ ı ǅ): d2 compares names in two ways
 	srcHasNull bool // the source contains `key: null` statements (left by deletions of imported / inherited elements)
 }
 
@@ -661,10 +674,12 @@ func (c *call) ctxSuffix() string {
 		return "@imported-destination"
 	case c.srcHasNull:
 		return "@source-has-null"
-	case c.tDotted && (c.kind == opRename || c.kind == opMove || c.kind == opDeleteObj):
-		return "@dotted-keys"
+	case c.foldNames:
+		return "@special-case-folding-names"
 	case c.tInherited:
 		return "@inherited-target"
+	case c.tDotted:
+		return "@dotted-keys"
 	case c.bd != 0:
 		return "@board"
 	}
@@ -682,9 +697,17 @@ func (x *exec) signature(sig string) string {
 	switch {
 	case strings.HasPrefix(sig, "refused-edit-"):
 		return sig // mutation in place before validation: independent of the construct
+	case sig == emptyBoardSig:
+		return sig // every edit re-prints the whole file
 	case strings.HasPrefix(sig, "panic:"):
 		return sig + suf
-	case x.prop == "C36" || x.prop == "C41":
+	case x.prop == "C41":
+		// what matters for board scoping: does the target come from a board the addressed one starts from
+		if c.tInherited {
+			return sig + "@inherited-target"
+		}
+		return sig + "@board"
+	case x.prop == "C36":
 		return sig + suf
 	case strings.HasPrefix(suf, "@import") || suf == "@source-has-null":
 		// elements from imported files and sources with `x: null` statements are only partly
@@ -958,6 +981,14 @@ func (x *exec) resolve(op Op) *call {
 		if cont != nil {
 			base, c.dest = cont.absID, cont.m
 			c.dForeign, c.dImpValue = cont.foreign, cont.impValue
+			for _, m := range st.objs {
+				if o := st.els[m]; o.dotted && (st.under(m, cont.m) || st.under(cont.m, m)) {
+					c.tDotted = true // the destination (or something above / below it) is written with dotted keys
+				}
+				if o := st.els[m]; o.foreign && st.under(cont.m, m) {
+					c.dForeign = true
+				}
+			}
 		}
 		seg := e.id
 		c.sameName = true
@@ -1008,8 +1039,8 @@ func (x *exec) setTarget(c *call, st *bstate, e *el) {
 			if !o.edge && o.dotted && (st.under(m, e.m) || st.under(e.m, m)) {
 				c.tDotted = true // below or above the target
 			}
-			if o.foreign && (!o.edge && st.under(m, e.m) || o.edge && (st.under(o.src, e.m) || st.under(o.dst, e.m))) {
-				c.tForeign = true
+			if o.foreign && (!o.edge && (st.under(m, e.m) || st.under(e.m, m)) || o.edge && (st.under(o.src, e.m) || st.under(o.dst, e.m))) {
+				c.tForeign = true // below, above or attached
 			}
 		}
 	}
@@ -1312,6 +1343,7 @@ func (x *exec) execute(step int, c *call, chk checker) bool {
 	}
 	x.steps++
 	c.srcHasNull = strings.Contains(x.text, ": null")
+	c.foldNames = strings.ContainsAny(x.text+c.key+c.newKey+c.newName, "ςſ\u212aıǅǆǄ")
 	x.cur = c
 	defer func() { x.cur = nil }()
 	x.trace = append(x.trace, fmt.Sprintf("#%d %s", step, c))
@@ -1429,6 +1461,15 @@ func panicSig(p *panicInfo, c *call) string {
 func hash64(b []byte) uint64 {
 	s := sha256.Sum256(b)
 	return binary.LittleEndian.Uint64(s[:8])
+}
+
+// emptyBoardSig: the formatter prints a board whose block is empty (`s1: {}`) as a bare key, which
+// compiles to a folder-only board that no longer shows what it inherits (C04
+// meaning-changed:empty-board-map); every successful edit re-prints the whole file.
+const emptyBoardSig = "empty-board-printed-as-folder"
+
+func becameFolder(pre, post board) bool {
+	return post.g.IsFolderOnly && !pre.g.IsFolderOnly
 }
 
 // postBoard finds the board with the same path in the post-state.
